@@ -7,7 +7,8 @@ using namespace ibex; using namespace vh; using namespace std;
 static string varset_tok(const VarSet& v) { string vs; for (int k = 0; k < v.nb_var; k++) { if (k) vs += "."; vs += to_string(v.var(k)); } return vs; }
 static double dyadic(Rng& r) { return r.range(-16, 16) / 8.0; }
 
-static bool VECTOR_INEQS = false;   // (set by the workloads that want vector-valued inequalities)
+static bool VECTOR_INEQS = false;
+static bool STRICT_INEQS = false;   // (strict inequalities < and >)   // (set by the workloads that want vector-valued inequalities)
 struct Problem { System* sys; string dags, specs; int n, m, k; vector<Vector> planted; };
 
 // a system with planted solution(s): equations g_i(x)=g_i(p*), inequalities satisfied at p* with a margin
@@ -32,8 +33,8 @@ static bool make_problem(Rng& r, Problem& P) {
     if (v.is_empty() || v.is_unbounded()) return false;
     CmpOp op; double cst; string spec;
     if (j < m) { if (!v.is_degenerated()) return false; op = EQ; cst = v.lb(); spec = "eq"; }
-    else if (r.coin()) { op = LEQ; cst = v.ub() + r.range(1, 8) / 8.0; spec = "leq"; }
-    else { op = GEQ; cst = v.lb() - r.range(1, 8) / 8.0; spec = "geq"; }
+    else if (r.coin()) { bool strict = STRICT_INEQS && r.coin(35); op = strict ? LT : LEQ; cst = v.ub() + r.range(1, 8) / 8.0; spec = strict ? "lt" : "leq"; }
+    else { bool strict = STRICT_INEQS && r.coin(35); op = strict ? GT : GEQ; cst = v.lb() - r.range(1, 8) / 8.0; spec = strict ? "gt" : "geq"; }
     const ExprNode* fullp = &(e - ExprConstant::new_scalar(cst));
     if (j >= m && VECTOR_INEQS && r.coin(35)) {
       // a vector-valued inequality: 2-3 components, the same comparison, each satisfied at p with a margin
@@ -46,7 +47,7 @@ static bool make_problem(Rng& r, Problem& P) {
         Function tmp2(cp2, ExprCopy().copy(x, cp2, ec), "t2");
         Interval v2 = tmp2.eval(IntervalVector(p));
         if (v2.is_empty() || v2.is_unbounded()) { okv = false; break; }
-        double c2 = (op == LEQ) ? v2.ub() + r.range(1, 8) / 8.0 : v2.lb() - r.range(1, 8) / 8.0;
+        double c2 = (op == LEQ || op == LT) ? v2.ub() + r.range(1, 8) / 8.0 : v2.lb() - r.range(1, 8) / 8.0;
         comps.set_ref(c, ec - ExprConstant::new_scalar(c2));
       }
       if (!okv) return false;
